@@ -42,7 +42,9 @@ def gen(rng, tier):
     n = 9000 if tier == "thorough" else 600
     cases = []
     for i in range(n):
-        na = ["drop", "error", "pass", "drop", "pass", "bogus"][i % 6] if i % 40 else "ignore"
+        # undocumented values, among them documented ones with stray white space or another letter case
+        na = ["drop", "error", "pass", "drop", "pass", "bogus"][i % 6] if i % 20 else \
+            ["ignore", "drop ", " pass", "error\n", "Drop", "\tdrop", "PASS", ""][(i // 20) % 8]
         fr = gen_dm.make_frame(rng)
         nrows = len(fr["columns"][0]["values"])
         missing = {}
